@@ -169,6 +169,11 @@ pub struct Id {
     pub addr: u8,
     pub gen: u8,
     pub renew: RenewMode,
+    /// layout ballast (always 0): makes `Header<Id>`/`Member<Id>` larger than
+    /// `foca::Error`, so that `Result<Header<Id>, Error>` keeps its discriminant
+    /// in a field CBMC can constant-fold (otherwise an early `?` return is not
+    /// recognised and the rest of `handle_data` is explored on garbage)
+    pub pad: [u64; 2],
 }
 
 impl PartialEq for Id {
@@ -184,6 +189,7 @@ impl Id {
             addr,
             gen,
             renew: RenewMode::Never,
+            pad: [0; 2],
         }
     }
     pub fn arb(s: &mut impl Src) -> Self {
@@ -209,12 +215,14 @@ impl Identity for Id {
                 addr: self.addr,
                 gen: g,
                 renew: self.renew,
+                pad: [0; 2],
             }),
             RenewMode::Same => Some(*self),
             RenewMode::Losing => self.gen.checked_sub(1).map(|g| Id {
                 addr: self.addr,
                 gen: g,
                 renew: self.renew,
+                pad: [0; 2],
             }),
         }
     }
@@ -233,7 +241,7 @@ impl Identity for Id {
 // ---------------------------------------------------------------------------
 
 #[derive(Debug, Clone, Copy, PartialEq, Eq)]
-pub struct CodecErr;
+pub struct CodecErr(pub u8);
 impl core::fmt::Display for CodecErr {
     fn fmt(&self, f: &mut core::fmt::Formatter<'_>) -> core::fmt::Result {
         f.write_str("codec")
@@ -402,7 +410,7 @@ impl Codec<Id> for FixCodec {
 
     fn encode_header(&mut self, h: &Header<Id>, mut buf: impl BufMut) -> Result<(), CodecErr> {
         if buf.remaining_mut() < HDR {
-            return Err(CodecErr);
+            return Err(CodecErr(0));
         }
         let (tag, arg, n) = msg_parts(&h.message);
         put_id(&mut buf, &h.src);
@@ -416,7 +424,7 @@ impl Codec<Id> for FixCodec {
 
     fn decode_header(&mut self, mut buf: impl Buf) -> Result<Header<Id>, CodecErr> {
         if buf.remaining() < HDR {
-            return Err(CodecErr);
+            return Err(CodecErr(0));
         }
         let src = get_id(&mut buf);
         let src_incarnation = buf.get_u16();
@@ -431,7 +439,7 @@ impl Codec<Id> for FixCodec {
                 dst,
                 message,
             }),
-            None => Err(CodecErr),
+            None => Err(CodecErr(0)),
         }
     }
 
@@ -450,11 +458,11 @@ impl Codec<Id> for FixCodec {
                     }
                     i += 1;
                 }
-                return Err(CodecErr);
+                return Err(CodecErr(0));
             }
         }
         if buf.remaining_mut() < MEM {
-            return Err(CodecErr);
+            return Err(CodecErr(0));
         }
         put_id(&mut buf, m.id());
         buf.put_u16(m.incarnation());
@@ -464,13 +472,13 @@ impl Codec<Id> for FixCodec {
 
     fn decode_member(&mut self, mut buf: impl Buf) -> Result<Member<Id>, CodecErr> {
         if buf.remaining() < MEM {
-            return Err(CodecErr);
+            return Err(CodecErr(0));
         }
         let id = get_id(&mut buf);
         let inc = buf.get_u16();
         match tag_state(buf.get_u8()) {
             Some(st) => Ok(Member::new(id, inc, st)),
-            None => Err(CodecErr),
+            None => Err(CodecErr(0)),
         }
     }
 }
@@ -835,7 +843,7 @@ impl BroadcastHandler<Id> for LogHandler {
                 v: if data.len() > 1 { data[1] } else { 0 },
             })),
             1 => Ok(None),
-            _ => Err(CodecErr),
+            _ => Err(CodecErr(0)),
         }
     }
 
